@@ -140,6 +140,9 @@ def cases(c):
     for b in range(nb):
         r2 = c.rng('mem', b)
         tri = hostile_triples(r2, 60 if quick else 400, 512 if quick else 4096)
+        if quick:
+            # buffer-size boundaries of the work arrays (N*k a power of two), once per quick run
+            tri += [(4096, 16, 8.0), (2048, 16, 8.0), (1024, 64, 8.0), (257, 255, 8.0)]
         if not quick and b % 4 == 0:
             tri.append((16384, 7, 4.0))
         out.append({'lane': 'asan-driver', 'batch': b, 'triples': tri, 'directed': True})
